@@ -26,7 +26,7 @@ _logging.getLogger("pydsdl").setLevel(_logging.ERROR)  # the legacy-extension wa
 # ------------------------------------------------------------------------------------------------------------------
 # c10.sort - symbolic versions
 
-SORT_NAMES = [["ns.A", "ns.A", "ns.A"], ["ns.A", "ns.B", "ns.A"], ["ns.b", "ns.B", "ns.a"], ["ns.x.A", "ns.A", "ns.x.A"],
+SORT_NAMES = [["ns.Legacy.Item", "ns.Message", "ns.Legacy.Item"], ["ns.a.Z", "ns.b", "ns.B.x"], ["ns.A", "ns.A", "ns.A"], ["ns.A", "ns.B", "ns.A"], ["ns.b", "ns.B", "ns.a"], ["ns.x.A", "ns.A", "ns.x.A"],
               ["z.A", "a.Z", "a.Z"]]
 
 
@@ -78,6 +78,9 @@ TREE = {
     "tgt/ns/Z.255.255.dsdl": "ns.sub.deep.C.0.1 c\n@sealed\n",
     "tgt/ns/100.Msg.1.0.dsdl": "uint8 v\n@sealed\n",
     "tgt/ns/aa/Lower.1.0.dsdl": "@sealed\n",
+    "tgt/ns/Legacy/Item.1.0.dsdl": "@sealed\n",
+    "tgt/ns/Legacy/Item.1.2.dsdl": "@sealed\n",
+    "tgt/ns_ext/Ext.1.0.dsdl": "ns.A.1.1 a\n@sealed\n",
     "tgt/ns/notes.txt": "not a definition",
     "tgt/ns/sub/README.md": "not a definition",
     "lk/dep/D.1.0.dsdl": "dep.E.1.0 e\n@sealed\n",
@@ -107,7 +110,7 @@ def _sorted_keys(keys: typing.Iterable[typing.Any]) -> typing.List[typing.Any]:
     return sorted(keys, key=lambda k: (k[0], -k[1][0], -k[1][1]))
 
 
-TGT_KEYS = _sorted_keys(_key_of(r) for r in TREE if r.startswith("tgt/") and r.endswith((".dsdl", ".uavcan")))
+TGT_KEYS = _sorted_keys(_key_of(r) for r in TREE if r.startswith("tgt/ns/") and r.endswith((".dsdl", ".uavcan")))
 DEP_KEYS = _sorted_keys(_key_of(r) for r in TREE if r.startswith("lk/") and r.endswith((".dsdl", ".uavcan")))
 
 
@@ -312,6 +315,35 @@ def make_files(spelling: str):
     return h
 
 
+def make_prefix_roots():
+    """Two root directories one of whose paths is a string prefix of the other (ns / ns_ext): any order of the roots."""
+
+    def concrete(order: int, oi: int) -> typing.Any:
+        import pydsdl
+
+        sc = _sc()
+        roots = [sc.root / "tgt" / "ns", sc.root / "tgt" / "ns_ext"]
+        if order:
+            roots.reverse()
+        try:
+            with environment(ORDERS[oi]):
+                direct, transitive = pydsdl.read_files([sc.root / "tgt" / "ns_ext" / "Ext.1.0.dsdl"], roots, [],
+                                                       allow_unregulated_fixed_port_id=True)
+        except pydsdl.InvalidDefinitionError as ex:
+            return "rejected: %s %s" % (type(ex).__name__, ex.text[:120])
+        if _names(direct) != [("ns_ext.Ext", (1, 0))] or _names(transitive) != [("ns.A", (1, 1))]:
+            return "direct %s, transitive %s" % (_names(direct), _names(transitive))
+        return True
+
+    def h(order: int, oi: int) -> typing.Any:
+        a, b = pick(order, 0, 1), pick(oi, 0, len(ORDERS) - 1)
+        if a is None or b is None:
+            return None
+        return textio.native(concrete, a, b)
+
+    return h
+
+
 # ------------------------------------------------------------------------------------------------------------------
 # c10.roots
 
@@ -415,6 +447,9 @@ def conditions(tier: str, seed: int) -> typing.List[Cond]:
                         assumptions=["every subset of 1..3 of 7 target files x %d orders x (as listed | reversed with a "
                                      "duplicate); spelling %s" % (len(ORDERS), sp)],
                         stubs=["same environment stub"], witness={"si": 0, "oi": 0, "rev": 0}, budget=1800.0, need_exhaust=True))
+    out.append(Cond(PROP, "c10.prefix-roots", make_prefix_roots, {}, {"order": int, "oi": int}, kind="choice",
+                    assumptions=["read_files with two roots whose paths are string prefixes of one another, both orders"],
+                    witness={"order": 0, "oi": 0}, budget=120.0, need_exhaust=True))
     for api in ("read_namespace", "read_files"):
         out.append(Cond(PROP, "c10.roots", make_roots, {"api": api}, {"li": int, "allow": int, "oi": int}, kind="choice",
                         assumptions=["%d layouts of root / lookup directories (nesting at depth 1..3, same name incl. letter "
